@@ -12,13 +12,18 @@ variable {α : Type}
 
 inductive Kind where
   | jacobi | sor | ssor | poly (m : Nat) | ilu (p : Int) | matrix
+  /-- `ScalePrecond` (no matrix) and `DiagonalPrecond` (holds a reference to a vector: the value array of the "matrix") -/
+  | scale | diagonal
 deriving Repr, BEq, DecidableEq
 
 /-- constructor arguments of the solver object -/
 structure Cfg (α : Type) where
   kind : Kind
   ω : α
+  /-- entries of a unit filter (`[]` for the other filter types) -/
   fidx : List Nat
+  /-- `filter_cor` of a non-unit filter (mean, slip, none = `some`), applied to the result; `none` = it aborts -/
+  post : Array α → Option (Array α) := some
 
 /-- derived data held by the object -/
 structure PState (α : Type) where
@@ -33,6 +38,10 @@ def PState.empty : PState α := { invD := #[], iluS := none, iluN := { dataL := 
 
 inductive Step (α : Type) where
   | initSymbolic | initNumeric | apply (x : Array α) | update (val : Array α) | done
+  /-- `done_numeric()` alone (a no-op for all of these classes) -/
+  | doneNumeric
+  /-- `apply(v, v)`: correction and defect vector are the same object -/
+  | applyIn (x : Array α)
 
 /-- abnormal ends of a history -/
 inductive Stop where
@@ -79,8 +88,8 @@ def doneSymbolic (c : Cfg α) (st : PState α) : PState α :=
 /-- the content of a freshly allocated output vector in the harness (never visible in a correct result) -/
 def sentinel [OfNat α 777] (n : Nat) : Array α := Array.replicate n 777
 
-/-- `apply(vec_cor, vec_def)` with `vec_cor` a fresh vector of the right size -/
-def applyStep [Zero α] [One α] [Add α] [Sub α] [Mul α] [Div α] [Neg α] [OfNat α 777] (tiny : α → Bool) (c : Cfg α)
+/-- `apply(vec_cor, vec_def)` with `vec_cor` a fresh vector of the right size, up to the unit filter -/
+def applyCore [Zero α] [One α] [Add α] [Sub α] [Mul α] [Div α] [Neg α] [OfNat α 777] (tiny : α → Bool) (c : Cfg α)
     (A : Csr α) (st : PState α) (x : Array α) : Except Stop (Array α) :=
   match c.kind with
   | .jacobi =>
@@ -101,6 +110,42 @@ def applyStep [Zero α] [One α] [Add α] [Sub α] [Mul α] [Div α] [Neg α] [O
     else match matrixApply tiny c.fidx A x with
       | none => .error .abort
       | some r => .ok r
+  | .scale => .ok (scaleApply c.ω c.fidx x)
+  | .diagonal => if A.val.size != x.size then .error .abort else .ok (diagonalApply c.fidx A.val x)
+
+/-- the correction filter of a non-unit filter type on top -/
+def postFilter (c : Cfg α) (r : Except Stop (Array α)) : Except Stop (Array α) :=
+  match r with
+  | .error e => .error e
+  | .ok y => match c.post y with
+    | none => .error .abort
+    | some z => .ok z
+
+/-- `apply(vec_cor, vec_def)` -/
+def applyStep [Zero α] [One α] [Add α] [Sub α] [Mul α] [Div α] [Neg α] [OfNat α 777] (tiny : α → Bool) (c : Cfg α)
+    (A : Csr α) (st : PState α) (x : Array α) : Except Stop (Array α) :=
+  postFilter c (applyCore tiny c A st x)
+
+/-- `apply(v, v)` in place, as the code behaves when both arguments are the same vector: the sweeps and `solve_il`
+    read their right-hand side from the array they overwrite; the element-wise kinds and the polynomial one (which
+    reads `vec_def` only in its first statement) are unaffected; `SparseMatrixCSR::apply` refuses aliased vectors. -/
+def applyInCore [Zero α] [One α] [Add α] [Sub α] [Mul α] [Div α] [Neg α] [OfNat α 777] (tiny : α → Bool) (c : Cfg α)
+    (A : Csr α) (st : PState α) (x : Array α) : Except Stop (Array α) :=
+  match c.kind with
+  | .sor => if A.rows != x.size then .error .abort else .ok (filterCor c.fidx (sorSweepIn c.ω A x))
+  | .ssor =>
+    if A.rows != x.size then .error .abort
+    else .ok (filterCor c.fidx ((ssorBwd c.ω A (ssorFwdIn c.ω A x)).map (· * (c.ω * ((1 + 1) - c.ω)))))
+  | .ilu _ =>
+    match st.iluS with
+    | none => .ok (filterCor c.fidx x)
+    | some s => .ok (filterCor c.fidx (solveDu (s.matU st.iluN) st.iluN.dataD (solveIlIn (s.matL st.iluN) x)))
+  | .matrix => if A.rows != x.size || A.usedElements != 0 then .error .abort else applyCore tiny c A st x
+  | _ => applyCore tiny c A st x
+
+def applyInStep [Zero α] [One α] [Add α] [Sub α] [Mul α] [Div α] [Neg α] [OfNat α 777] (tiny : α → Bool) (c : Cfg α)
+    (A : Csr α) (st : PState α) (x : Array α) : Except Stop (Array α) :=
+  postFilter c (applyInCore tiny c A st x)
 
 /-- a whole history on one solver object; the outputs of the `apply` steps are collected -/
 def runSteps [Zero α] [One α] [Add α] [Sub α] [Mul α] [Div α] [Neg α] [OfNat α 777] [DecidableEq α]
@@ -120,5 +165,10 @@ def runSteps [Zero α] [One α] [Add α] [Sub α] [Mul α] [Div α] [Neg α] [Of
     | .ok y => runSteps tiny c A st r (y :: acc)
   | A, st, .update v :: r, acc => runSteps tiny c { A with val := v } st r acc
   | A, st, .done :: r, acc => runSteps tiny c A (doneSymbolic c st) r acc
+  | A, st, .doneNumeric :: r, acc => runSteps tiny c A st r acc
+  | A, st, .applyIn x :: r, acc =>
+    match applyInStep tiny c A st x with
+    | .error e => .error e
+    | .ok y => runSteps tiny c A st r (y :: acc)
 
 end FeatModel.Solver
